@@ -78,6 +78,8 @@ type DocStats struct {
 	// DupPositions counts selection nodes whose (line, column) equals that of an earlier selection node
 	// (must be 0 for parsed documents; the executor's memo key relies on it).
 	DupPositions int
+	// EmptyKeys counts field selections whose response key is empty (impossible for parsed documents).
+	EmptyKeys int
 }
 
 type astConv struct {
@@ -195,6 +197,9 @@ func (c *astConv) sels(set *ast.SelectionSet, parent schema.NamedType, depth int
 			if sel.Alias != nil {
 				c.stats.Aliases++
 				alias = hx.N("some", hx.A(sel.Alias.Name))
+			}
+			if sel.Name.Name == "" || (sel.Alias != nil && sel.Alias.Name == "") {
+				c.stats.EmptyKeys++
 			}
 			wkey := sel.Name.Name
 			argErr := hx.L(hx.A("none"))
